@@ -82,3 +82,28 @@ def comp_signature(fn, node, depth=0):
             own.add(re.sub(r'\b{}\b'.format(re.escape(var)), '_', text))
         return src, frozenset(filters | own)
     return u(node), frozenset()
+
+
+def raise_condition_is(ck, module, fn, pick, classify, expected, what, key, rule='DT-reject'):
+    """The reaching condition of the picked raise, over atoms named by
+    `classify(key) -> name | None`, is equivalent to `expected`."""
+    cands = [(st, c) for st, c, _e in raise_conditions(fn) if pick(st, c)]
+    ck.analysed(module, fn)
+    if len(cands) != 1:
+        ck.ob(rule, module.loc(fn), False, '{}: the rejecting raise was not found uniquely in {} ({} candidate(s))'.format(what, fn.name, len(cands)), key=key)
+        return
+    st, cond = cands[0]
+    names = {}
+    unknown = []
+    for k in flow.atoms_of(cond):
+        nm = classify(k)
+        if nm is None:
+            unknown.append(atom_text(k)[:80])
+        else:
+            names[k] = nm
+    f = flow.rename(cond, names)
+    eq, cex, rows = flow.equivalent(f, flow.parse_formula(expected))
+    ck.ob(rule, module.loc(st), eq and not unknown,
+          '{}: the input is rejected exactly when {} ({} rows){}'.format(
+              what, expected, rows, '' if eq and not unknown else ' -- found condition {}{}'.format(flow.show(f)[:200], '; unrecognised: ' + '; '.join(unknown) if unknown else '')),
+          key=key)
